@@ -50,6 +50,9 @@ Definition f_millis (a : fl) : Z :=
   let n := f_num a * 1000 in
   rne (n / f_den a) (n mod f_den a) (f_den a).
 
+(* durations the muxer stores: non-negative and not above 2^40 seconds (stated on the fraction) *)
+Definition dur_ok (a : fl) : Prop := (0 <= f_num a /\ f_num a <= 2 ^ 40 * f_den a)%Z.
+
 (* ---- decimal text ---- *)
 Open Scope N_scope.
 Fixpoint dec_go (fuel : nat) (n : Z) (acc : bytes) : bytes :=
